@@ -5,6 +5,7 @@
      single   <id> <nodes> <md> <rules> <rank> <idx> <sel|nosel>     -> set of  ok:a | err:<kind> | panic
      swap     <id> <nodes> <md> <rules> <rank> <idx> <ens> <from>    -> set of  swap:t | noswap | err:<kind> | panic
      place    <id> <nodes> <md> <rules> <rf>                         -> set of  ok:a.b.c | refused | panic   (no ranking)
+     swapctl  <id> <ens> <removed> <from> <to> <election ok 0|1>     -> refused|failed|done : <stored ensemble>
      swapnode <id> <ens> <removed> <from> <to>                       -> ok:<ens>/<removed> | refused:<ens>/<removed>
      round    <id> <nodes> <md> <rank> <idx> <shards> <reqs>         -> set of  <trace>;<final>
               shards "sid/rules/ens_sid/rules/ens", reqs "sid>from,sid>from" ("-" = none)
@@ -70,6 +71,13 @@ let () = read_lines (fun line ->
   | ["swapnode"; id; ens; removed; from; to_] ->
     let (m, ok) = M.swap_node version { M.m_ens = ids ens; M.m_removed = ids removed } (n_of_string from) (n_of_string to_) in
     Printf.printf "%s %s:%s\n" id (if ok then "ok" else "refused") (md_str m)
+  | ["swapctl"; id; ens; removed; from; to_; eok] ->
+    (* a whole swapNode of a controller whose memory equals the status: verdict and STORED ensemble afterwards *)
+    let m = { M.m_ens = ids ens; M.m_removed = ids removed } in
+    let (c, r) = M.swap_node_ctl version { M.ctl_mem = m; M.ctl_stored = m } (n_of_string from) (n_of_string to_) (eok = "1") in
+    Printf.printf "%s %s:%s\n" id
+      (match r with M.SwapRefused -> "refused" | M.SwapElectionFailed -> "failed" | M.SwapDone -> "done")
+      (str_ids "." c.M.ctl_stored.M.m_ens)
   | ["round"; id; nodes; md; rank; idx; shards; reqs] ->
     let snap = if shards = "-" then [] else List.map (fun s ->
       match String.split_on_char '/' s with
